@@ -36,11 +36,11 @@ def module_facts(kind: str, container: bool, constraint: Any) -> Dict[str, Any]:
     return {"tag": m.weight.mup_type, "depth": depth, "constraint": m.constraint, "has_depth": m.weight.mup_scaling_depth is not None}
 
 
-def h_width(kind: str, container: bool, constraint: Any, opt: str):
+def h_width(kind: str, container: bool, constraint: Any, opt: str, mode: str = "alone"):
     def h(c: Ctx) -> None:
         import unit_scaling.functional as U
         facts = module_facts(kind, container, constraint)
-        info = {"kind": kind, "container": container, "constraint": constraint, "opt": opt}
+        info = {"kind": kind, "container": container, "constraint": constraint, "opt": opt, "mode": mode}
         with Session():
             fi, fo_ = c.dim("fan_in", 1, 4096, sample=5), c.dim("fan_out", 1, 4096, sample=3)
             eta = c.real("eta", 1e-4, 1)
@@ -81,9 +81,25 @@ def h_width(kind: str, container: bool, constraint: Any, opt: str):
             ka, gm, gp = fo._ratio(c, "grad[w]", w_g, w.grad)
             c.oblige("weight gradient = a_w * PyTorch's with a_w > 0 (so sign(grad) = sign(g_j) x_i)", z3.And(fo._eq_claim(gp), ka > 0) if not gm else z3.BoolVal(False),
                      info={**info, "claim": "e2e"})
-            cfg = {"api": opt, "structure": "bare", "lr": "float", "independent_wd": True, "params": []}
-            groups = oo._call_api(cfg, [w], eta, 0.0)
-            lr_w = oo.lr_value(groups[0]["lr"])
+            cfg = {"api": opt, "structure": "bare", "lr": "tensor" if mode == "model-tensor" else "float", "independent_wd": True, "params": []}
+            if mode == "alone":
+                params, eta_arg = [w], eta
+            else:
+                # the optimizer is given the whole model, as in `Adam(model.parameters(), lr)`: sibling unit-scaling parameters share
+                # the learning rate with `w` (a 0-dim tensor in mode model-tensor) and come before and after it
+                sib_w = STensor.leaf("sib_w", (c.dim("sib_out", 1, 4096, sample=4), c.dim("sib_in", 1, 4096, sample=6)), torch.float64, requires_grad=True)
+                sib_b = STensor.leaf("sib_b", (c.dim("sib_len", 1, 4096, sample=4),), torch.float64, requires_grad=True)
+                for sib, tag in ((sib_w, "weight"), (sib_b, "bias")):
+                    sib.mup_type = tag
+                    sib.mup_scaling_depth = w.mup_scaling_depth
+                params = [sib_w, w, sib_b]
+                eta_arg = STensor.scalar(eta, torch.float64) if mode == "model-tensor" else eta
+            groups = oo._call_api(cfg, params, eta_arg, 0.0)
+            mine = [g for g in groups if len(g["params"]) == 1 and g["params"][0] is w]
+            if len(mine) != 1:
+                c.oblige("the layer's weight has exactly one optimizer group", z3.BoolVal(False), info={**info, "claim": "e2e", "mismatch": f"{len(mine)} groups"})
+                return
+            lr_w = oo.lr_value(mine[0]["lr"])
             lhs = kf * lr_w * _sreal(terms).z
             if depth is None:
                 rhs = eta.z
@@ -97,7 +113,8 @@ def h_width(kind: str, container: bool, constraint: Any, opt: str):
     return h
 
 
-def end_to_end(kind: str, container: bool, constraint: Any, opt: str, fan_in: int, fan_out: int, k: int, eta: float, seed: int = 0) -> Tuple[bool, str]:
+def end_to_end(kind: str, container: bool, constraint: Any, opt: str, fan_in: int, fan_out: int, k: int, eta: float, seed: int = 0,
+               mode: str = "alone") -> Tuple[bool, str]:
     """One real Adam/AdamW step (eps=0, no decay) on the real module with +-1 inputs: every output moves by eta/sqrt(depth)."""
     import unit_scaling as uu
     import unit_scaling.optim as uo
@@ -111,10 +128,18 @@ def end_to_end(kind: str, container: bool, constraint: Any, opt: str, fan_in: in
         x = (torch.randint(0, 2, (1, fan_in), generator=gen) * 2 - 1).double()
     depth = 1.0
     if container:
-        seq = uu.DepthSequential(m, uu.Linear(2, 2), uu.Linear(2, 2))
+        seq = uu.DepthSequential(uu.Linear(2, 2, bias=True).double(), m, uu.Linear(2, 2).double())
         depth = float(len(seq))
     cls = getattr(uo, opt)
-    o = cls([m.weight], lr=eta, eps=0.0, weight_decay=0.0)
+    if mode == "alone":
+        o = cls([m.weight], lr=eta, eps=0.0, weight_decay=0.0)
+    else:
+        # the whole model (the layer, and its siblings when it sits in a depth container), lr a float or a 0-dim tensor
+        model = seq if container else torch.nn.ModuleList([uu.Linear(3, 2, bias=True).double(), m])
+        lr_arg = torch.tensor(eta, dtype=torch.float64) if mode == "model-tensor" else eta
+        o = cls(model.parameters(), lr=lr_arg, eps=0.0, weight_decay=0.0)
+        if isinstance(lr_arg, torch.Tensor) and float(lr_arg) != eta:
+            return False, f"{kind} {opt} mode={mode}: the caller's lr tensor was changed from {eta!r} to {float(lr_arg)!r}"
     y0 = m(x)
     g = torch.randn(y0.shape, generator=gen, dtype=torch.float64)
     g = torch.where(g.abs() < 1e-3, torch.ones_like(g), g)
@@ -124,7 +149,7 @@ def end_to_end(kind: str, container: bool, constraint: Any, opt: str, fan_in: in
     d = (y1 - y0).detach().abs().reshape(-1)
     want = eta / depth ** 0.5
     ok = bool(((d - want).abs() <= 1e-9 * want).all())
-    return ok, f"{kind} container={container} constraint={constraint} {opt} fan_in={fan_in} fan_out={fan_out} k={k} eta={eta}: |dy| in [{d.min().item()!r}, {d.max().item()!r}], expected {want!r}"
+    return ok, f"{kind} container={container} constraint={constraint} {opt} mode={mode} fan_in={fan_in} fan_out={fan_out} k={k} eta={eta}: |dy| in [{d.min().item()!r}, {d.max().item()!r}], expected {want!r}"
 
 
 def replay_width(obname: str, model: Dict[str, Any], info: Any) -> Tuple[bool, str]:
@@ -132,31 +157,32 @@ def replay_width(obname: str, model: Dict[str, Any], info: Any) -> Tuple[bool, s
     k = int(model.get("kernel", 3)) if info["kind"] == "Conv1d" else 1
     eta = float(model.get("eta", 0.1))
     try:
-        ok, desc = end_to_end(info["kind"], info["container"], info["constraint"], info["opt"], fi, fo_, k, eta)
+        ok, desc = end_to_end(info["kind"], info["container"], info["constraint"], info["opt"], fi, fo_, k, eta, mode=info.get("mode", "alone"))
     except Exception as e:
         return True, f"{info}: raises {type(e).__name__}: {e}"
     return (not ok), desc
 
 
-def task_width(kind: str, container: bool, constraint: Any, opt: str, timeout: float) -> List[Dict[str, Any]]:
+def task_width(kind: str, container: bool, constraint: Any, opt: str, timeout: float, mode: str = "alone") -> List[Dict[str, Any]]:
     torch.set_num_threads(1)
-    return discharge("C12", f"{kind}[container={container},constraint={constraint},{opt}]", h_width(kind, container, constraint, opt), replay_width, timeout,
-                     base_info={"kind": kind, "container": container, "constraint": constraint, "opt": opt})
+    tag = "" if mode == "alone" else f",{mode}"
+    return discharge("C12", f"{kind}[container={container},constraint={constraint},{opt}{tag}]", h_width(kind, container, constraint, opt, mode), replay_width, timeout,
+                     base_info={"kind": kind, "container": container, "constraint": constraint, "opt": opt, "mode": mode})
 
 
-def task_contract(kind: str, container: bool, constraint: Any, opt: str, sizes: List[Tuple[int, int, int, float]]) -> List[Dict[str, Any]]:
+def task_contract(kind: str, container: bool, constraint: Any, opt: str, sizes: List[Tuple[int, int, int, float]], mode: str = "alone") -> List[Dict[str, Any]]:
     """Concrete validation of the two stub contracts the symbolic claim composes: Adam's first step with eps=0 is
     -lr*sign(grad), and the module computes its functional form (C08).  Labelled concrete."""
     torch.set_num_threads(1)
     bad = []
     for fi, fo_, k, eta in sizes:
-        ok, desc = end_to_end(kind, container, constraint, opt, fi, fo_, k if kind == "Conv1d" else 1, eta)
+        ok, desc = end_to_end(kind, container, constraint, opt, fi, fo_, k if kind == "Conv1d" else 1, eta, mode=mode)
         if not ok:
             bad.append(desc)
-    name = f"contract/{kind}[container={container},constraint={constraint},{opt}]"
+    name = f"contract/{kind}[container={container},constraint={constraint},{opt}" + ("" if mode == "alone" else f",{mode}") + "]"
     if bad:
         return [{"type": "violation", "key": f"C12/{name}", "what": bad[0],
-                 "replay": {"kind": "contract", "args": [kind, container, constraint, opt], "sizes": sizes}}]
+                 "replay": {"kind": "contract", "args": [kind, container, constraint, opt], "sizes": sizes, "mode": mode}}]
     return [{"type": "obligation", "name": name, "status": CONCRETE, "queries": 0, "kind": "contract-validation",
              "detail": f"real module + real library optimizer, one step, sizes {sizes}: every |dy_j| = eta/sqrt(depth)"}]
 
@@ -174,6 +200,10 @@ def run(rep: Report, only: str = "") -> None:
                 for opt in ("Adam", "AdamW"):
                     tasks.append((task_width, (kind, container, constraint, opt, timeout)))
                     tasks.append((task_contract, (kind, container, constraint, opt, sizes)))
+                    # the optimizer over the whole model, learning rate a float or a 0-dim tensor shared by all its parameters
+                    for mode in (("model-tensor", "model-float") if (thorough or constraint is None) else ("model-tensor",)):
+                        tasks.append((task_width, (kind, container, constraint, opt, timeout, mode)))
+                        tasks.append((task_contract, (kind, container, constraint, opt, sizes[:3], mode)))
     if only:
         tasks = [t for t in tasks if only in repr(t[1])]
     rep.extend(run_tasks(tasks))
@@ -181,6 +211,7 @@ def run(rep: Report, only: str = "") -> None:
     rep.bounds = {"widths": "fan_in, fan_out symbolic in [1,4096], kernel in [1,9], depth None or symbolic in [1,64], eta in [1e-4,1]",
                   "layers": "Linear, LinearReadout, Conv1d (single output position) at default and None constraint, inside/outside DepthSequential; Adam and AdamW",
                   "derivation": "dy_j = c_out * sum_i x_i * (-lr sign(grad_ji)), grad_ji = a_w g_j x_i with a_w > 0 (proved), x_i^2 = 1  =>  |dy_j| = c_out * lr * fan_in*k",
+                  "optimizer argument": "the layer's weight alone, or the whole model (sibling weight and bias sharing the learning rate, before and after it) with eta a float or a 0-dim tensor",
                   "outside": "the Adam update rule itself is torch code: used as the documented first-step contract (eps=0: -lr*sign(grad)), validated concretely on every run"}
     rep.assumptions = ["Adam/AdamW first step with eps=0, no weight decay: delta w = -lr * sign(grad) (contract validated per run with the real optimizer on real modules)",
                        "tag/depth/constraint of the layer are read off the real module constructed concretely; the solver quantifies over widths, kernel, depth and eta"]
@@ -192,7 +223,7 @@ def replay(data: Dict[str, Any]) -> Tuple[bool, str]:
     if data.get("kind") == "contract":
         a = data["args"]
         for fi, fo_, k, eta in data["sizes"]:
-            ok, desc = end_to_end(a[0], a[1], a[2], a[3], fi, fo_, k if a[0] == "Conv1d" else 1, eta)
+            ok, desc = end_to_end(a[0], a[1], a[2], a[3], fi, fo_, k if a[0] == "Conv1d" else 1, eta, mode=data.get("mode", "alone"))
             if not ok:
                 return True, desc
         return False, "ok"
